@@ -72,6 +72,7 @@ STACKS = {
     "TimeLimit(ClipAction)": (_box_env, lambda e: W.TimeLimit(W.ClipAction(e), 5)),
     "ClipAction(TimeLimit)": (_box_env, lambda e: W.ClipAction(W.TimeLimit(e, 5))),
     "TimeLimit(TimeLimit)": (_box_env, lambda e: W.TimeLimit(W.TimeLimit(e, 9), 5)),
+    "TimeLimit(shorter TimeLimit)": (_box_env, lambda e: W.TimeLimit(W.TimeLimit(e, 3), 10)),
     "Flatten(Rescale(TimeLimit))": (_bounded_obs_env, lambda e: W.FlattenObservation(W.RescaleObservation(W.TimeLimit(e, 5)))),
     "TimeLimit(RescaleAction(ClipObservation))": (_bounded_obs_env, lambda e: W.TimeLimit(W.RescaleAction(W.ClipObservation(e)), 4)),
 }
@@ -182,11 +183,28 @@ def _native_truncation_replay(stack_name):
                     if bool(trunc) != expected or (expected and any(counters)) or bool(term):
                         return dict(reproduced=True, route="R1 (real wrapper stack over a deterministic generic environment, inner flags forced False, eager steps from a reset)",
                                     inputs=dict(stack=stack_name, smallest_time_limit=L, step=t), observed=dict(truncated_flags_so_far=flags, expected_truncated=expected, counters_in_returned_state=counters))
-            return dict(reproduced=False, note=f"truncation raised exactly every {L} steps; counters restart")
+                # second phase: the base environment itself truncates (flag forced True): every step must report truncated and return a fresh state
+                for nm in ("env.truncate", "decoy.truncate"):
+                    opaque.OVERRIDES[nm] = [np.asarray(True)]
+                s, _, _ = E.reset(key=jax.random.key(1))
+                for t in range(1, 4):
+                    s, _, _, term, trunc, _ = E.step(s, a, key=jax.random.key(100 + t))
+                    counters = [int(l) for p, l in jax.tree_util.tree_flatten_with_path(s)[0] if "step_count" in jax.tree_util.keystr(p)]
+                    if not bool(trunc) or any(counters):
+                        return dict(reproduced=True, route="R1 (real wrapper stack over a deterministic generic environment whose own truncate flag is forced True)",
+                                    inputs=dict(stack=stack_name, step=t, inner_truncate=True), observed=dict(truncated=bool(trunc), counters_in_returned_state=counters))
+            return dict(reproduced=False, note=f"truncation raised exactly every {L} steps and whenever the base environment truncates; counters restart")
         finally:
             opaque.IGNORE_KEYS = old_ik
             opaque.OVERRIDES.clear()
             opaque.OVERRIDES.update(old_ov)
+    return replay
+
+
+def _both_replays(r1, r2):
+    def replay(model):
+        a = r1(model)
+        return a if a.get("reproduced") else r2(model)
     return replay
 
 
@@ -210,7 +228,7 @@ def unit_stack(name):
         labels = ["state", "observation", "reward", "terminal", "truncated", "info"]
         for lab, r, sp in zip(labels, real, spec):
             goal = sand(*[f for _, f in tree_eq_named(r, sp)])
-            S.prove(f"step/{lab}", ctx, goal, function=F_STEP, holes=holes, replay=_native_replay(name, "step"),
+            S.prove(f"step/{lab}", ctx, goal, function=F_STEP, holes=holes, replay=_both_replays(_native_replay(name, "step"), _native_truncation_replay(name)),
                     what=f"[{name}] step's {lab} equals the spec (transition taken; fresh initial state iff terminal|truncated; "
                          f"observation of the returned state)")
         # end-to-end truncation through the stack: the stack's truncate is the base environment's truncate of the inner-most state OR any TimeLimit level having reached its limit
